@@ -109,6 +109,21 @@ def case_ei(log, names, concrete_nf=None):
 
 
 def _sampler(rng):
+    return _near(_sampler0(rng))
+
+
+_NEAR = [0]
+
+
+def _near(p):
+    """every third sample has nearly coincident couplings (a1 = a0 (1 + delta), delta = 1e-3 / 1e-5): special-casing of small steps"""
+    _NEAR[0] += 1
+    if _NEAR[0] % 3 == 0 and "a0" in p and "a1" in p:
+        p["a1"] = p["a0"] * (1 + (Fraction(1, 1000) if _NEAR[0] % 2 else Fraction(1, 100000)))
+    return p
+
+
+def _sampler0(rng):
     return {"a0": rnd(rng, 0.002, 0.1), "a1": rnd(rng, 0.002, 0.1), "beta0": rnd(rng, 5, 10), "b1": rnd(rng, 0.2, 6),
             "b2": rnd(rng, -5, 30), "b3": rnd(rng, -20, 200), "r1": -rnd(rng, 0.2, 3), "u": rnd(rng, -2, 2), "v": rnd(rng, 0.3, 3),
             "r2": -rnd(rng, 3.1, 5), "r3": rnd(rng, 0.5, 4)}
